@@ -70,6 +70,7 @@ PROFILES = {
     "C14": dict(sel=lambda f: True, pure=True, events=[], threads=4),
     "C20": dict(sel=lambda f: f["gates"] > 0, pure=False, events=[], threads=3, async_susp=True),
     "C04": dict(sel=lambda f: f["limit"] is not None and not f["inval_on"], pure=True, events=["invw", "invall", "tag"], threads=2),
+    "C05": dict(sel=lambda f: f["mem"] is not None, pure=False, events=["invw"], threads=2),
     "C06": dict(sel=lambda f: f["ttl"] is not None, pure=True, events=["tick", "invw"], threads=2),
     "C07": dict(sel=lambda f: f["pol"] in ("fifo", "lru") and (f["limit"] or f["mem"]), pure=True, events=["invw", "invall"], threads=1),
     "C08": dict(sel=lambda f: f["pol"] in ("lfu", "arc", "tlru") and (f["limit"] or f["mem"]), pure=True, events=["invw", "tick"], threads=1),
